@@ -19,6 +19,8 @@ def main():
         if r.returncode != 0:
             res[n] = {'applied': False}; print(n, 'PATCH DOES NOT APPLY'); continue
         out = {}
+        # the check rewrites evidence/<p>.json; evidence kept in /verif must come from the unchanged tree
+        saved = {p: open(os.path.join(V, 'evidence', p + '.json'), 'rb').read() for p in props if os.path.exists(os.path.join(V, 'evidence', p + '.json'))}
         try:
             for p in props:
                 t0 = time.time()
@@ -30,6 +32,7 @@ def main():
                 print(n, p, 'rc=%d' % c.returncode, 'violations=%d' % len(viol), harn[:3], flush=True)
         finally:
             sh('git -C /repo checkout -- .')
+            for p, b in saved.items(): open(os.path.join(V, 'evidence', p + '.json'), 'wb').write(b)
         res[n] = {'applied': True, 'head': sh('git -C /repo rev-parse --short HEAD').stdout.decode().strip(), 'checks': out,
                   'detected': any(v['rc'] == 1 for v in out.values())}
         json.dump(res, open(resf, 'w'), indent=1, sort_keys=True)
